@@ -272,6 +272,33 @@ func dependsOnAvoiding(v, target, avoid ssa.Value) bool {
 		if !ok {
 			return false
 		}
+		// a load from a local variable, or from a field of a local struct: what was stored there
+		if ld, isLd := x.(*ssa.UnOp); isLd && ld.Op == token.MUL {
+			switch a := ld.X.(type) {
+			case *ssa.Alloc:
+				if a.Referrers() != nil {
+					for _, ref := range *a.Referrers() {
+						if st, isSt := ref.(*ssa.Store); isSt && st.Addr == ssa.Value(a) && walk(st.Val, d+1) {
+							return true
+						}
+					}
+				}
+			case *ssa.FieldAddr:
+				if base, isAl := a.X.(*ssa.Alloc); isAl && base.Referrers() != nil {
+					for _, ref := range *base.Referrers() {
+						fa, isFA := ref.(*ssa.FieldAddr)
+						if !isFA || fa.Field != a.Field || fa.Referrers() == nil {
+							continue
+						}
+						for _, r2 := range *fa.Referrers() {
+							if st, isSt := r2.(*ssa.Store); isSt && st.Addr == ssa.Value(fa) && walk(st.Val, d+1) {
+								return true
+							}
+						}
+					}
+				}
+			}
+		}
 		for _, op := range in.Operands(nil) {
 			if *op != nil && walk(*op, d+1) {
 				return true
